@@ -48,6 +48,9 @@ struct Trace {
     node_name: Atom,
     creation: u32,
     unknown_task_hooks: u32,
+    /// full-mailbox scenarios: slots whose handler is held at a gate; slots whose handler is waiting there
+    gated: Vec<usize>,
+    at_gate: Vec<usize>,
 }
 
 type Shared = Arc<Mutex<Trace>>;
@@ -127,6 +130,19 @@ fn msg_text(tr: &Trace, msg: &Message) -> (String, Option<bool>) {
 
 impl Process for Inst {
     async fn handle_message(&mut self, msg: Message) -> edp_node::Result<()> {
+        // the gate of the full-mailbox scenarios: the handler does not start, the process takes nothing more
+        loop {
+            {
+                let mut tr = self.sh.lock().unwrap();
+                if !tr.gated.contains(&self.slot) {
+                    break;
+                }
+                if !tr.at_gate.contains(&self.slot) {
+                    tr.at_gate.push(self.slot);
+                }
+            }
+            tokio::task::yield_now().await;
+        }
         // a fresh poll (and a fresh cooperative budget) for every message
         for _ in 0..self.pre_yield.max(1) {
             tokio::task::yield_now().await;
@@ -225,6 +241,18 @@ enum Step {
     /// wait until process `slot` has handled n messages
     #[allow(dead_code)]
     WaitHandled(usize, usize),
+    /// the handler of process `slot` (spawned next with this slot number) is held at a gate
+    CloseGate(usize),
+    /// real time passes (a send that gives up after a while has given up by then)
+    Sleep(u64),
+    OpenGate(usize),
+    /// wait until process `slot` waits at its gate and its mailbox has no room
+    WaitFull(usize),
+    /// wait (long) until the task of process `slot` has ended
+    WaitEnded(usize),
+    /// `Node::send` to process `slot`, whose gate is closed, until its mailbox has no room left (every send is a call of
+    /// the history; none of them waits)
+    Fill(usize),
 }
 
 fn name_atom(n: u32) -> Atom {
@@ -428,6 +456,50 @@ async fn run_client(node: Arc<Node>, sh: Shared, t: usize, steps: Vec<Step>) {
                 let (optext, res) = do_op(&node, &sh, &op).await;
                 sh.lock().unwrap().log.push(Entry::Call { t, op: optext, res });
             }
+            Step::WaitFull(slot) => {
+                for _ in 0..200_000 {
+                    let pid = sh.lock().unwrap().pids.get(slot).cloned();
+                    if let Some(pid) = pid
+                        && sh.lock().unwrap().at_gate.contains(&slot)
+                        && let Some(h) = node.registry().get(&pid).await
+                        && h.mailbox_sender.capacity() == 0
+                    {
+                        break;
+                    }
+                    tokio::task::yield_now().await;
+                }
+            }
+            Step::WaitEnded(slot) => {
+                for _ in 0..5_000_000 {
+                    if point_logged(&sh.lock().unwrap(), slot, 4) {
+                        break;
+                    }
+                    tokio::task::yield_now().await;
+                }
+            }
+            Step::CloseGate(slot) => sh.lock().unwrap().gated.push(slot),
+            Step::Sleep(ms) => tokio::time::sleep(std::time::Duration::from_millis(ms)).await,
+            Step::OpenGate(slot) => sh.lock().unwrap().gated.retain(|x| *x != slot),
+            Step::Fill(slot) => {
+                let pid = sh.lock().unwrap().pids.get(slot).cloned();
+                let Some(pid) = pid else { continue };
+                let Some(handle) = node.registry().get(&pid).await else { continue };
+                // the first message is taken by the process task, which then waits at the gate
+                let (optext, res) = do_op(&node, &sh, &OpSpec::Send(PidSel::Slot(slot), false)).await;
+                sh.lock().unwrap().log.push(Entry::Call { t, op: optext, res });
+                for _ in 0..2000 {
+                    if sh.lock().unwrap().at_gate.contains(&slot) {
+                        break;
+                    }
+                    tokio::task::yield_now().await;
+                }
+                let mut n = 0;
+                while handle.mailbox_sender.capacity() > 0 && n < 100_000 {
+                    let (optext, res) = do_op(&node, &sh, &OpSpec::Send(PidSel::Slot(slot), false)).await;
+                    sh.lock().unwrap().log.push(Entry::Call { t, op: optext, res });
+                    n += 1;
+                }
+            }
         }
     }
 }
@@ -480,6 +552,8 @@ async fn run_scenario(sc: &Scenario) -> Option<(Vec<Entry>, u32)> {
         node_name: node.name().clone(),
         creation: node.creation(),
         unknown_task_hooks: 0,
+        gated: vec![],
+        at_gate: vec![],
     }));
     *CURRENT.lock().unwrap() = Some(sh.clone());
     let node = Arc::new(node);
@@ -626,7 +700,7 @@ fn emit(ctx: &mut Ctx, log: &[Entry], what: &str) {
     let log = canonical_handled(log);
     let toks: Vec<String> = log.iter().filter_map(token).collect();
     let res: Vec<String> = log.iter().filter_map(result_item).collect();
-    ctx.tie("run", &format!("c18run 1000 {}", toks.join(" ")), &res.join(";"));
+    ctx.tie("run", &format!("c18run src {}", toks.join(" ")), &res.join(";"));
     let st: Vec<String> = log.iter().filter_map(spec_token).collect();
     ctx.prop("gen", &format!("c18spec {}", st.join(" ")), "ok");
     check_points(ctx, &log, what);
@@ -834,6 +908,63 @@ fn directed() -> Vec<(&'static str, Scenario)> {
             Step::WaitPoint(1, 3),
             Step::Op(OpSpec::Monitor(s(0), s(1))),
         ]], [0, 25, 25])),
+    ]
+}
+
+/// full mailboxes: process 0 is held at its gate with its mailbox filled to capacity; then a linked process and a monitored
+/// process fail (their exit signals to 0 wait for room), a plain message and a message by name are sent to 0 from two other
+/// tasks (they wait too), the gate opens. Every notice and every message must be handled exactly once, in the order the
+/// sends were issued, after everything that was accepted before.
+fn full_mailbox() -> Vec<(&'static str, Scenario)> {
+    let mk = |clients: Vec<Vec<Step>>| Scenario { clients, hook_max: [0, 0, 0], hook_fixed: Some([0, 0, 0]), hook_seed: 1, names: 1 };
+    vec![
+        ("full-exit-and-monitor-notices", mk(vec![vec![
+            Step::CloseGate(0),
+            sp(true), sp(true), sp(true),
+            Step::Op(OpSpec::Link(s(0), s(1))),
+            Step::Op(OpSpec::Monitor(s(0), s(2))),
+            Step::Fill(0),
+            Step::Op(OpSpec::Send(s(1), true)),
+            Step::Yield(40),
+            Step::Op(OpSpec::Send(s(2), true)),
+            Step::Yield(40),
+            Step::Sleep(25),
+            Step::OpenGate(0),
+        ]])),
+        ("full-sends-by-pid-and-name", mk(vec![
+            vec![
+                Step::CloseGate(0),
+                sp(true), sp(true),
+                Step::Op(OpSpec::Register(0, s(0))),
+                Step::Op(OpSpec::Monitor(s(0), s(1))),
+                Step::Fill(0),
+                Step::Yield(120),
+                Step::Sleep(25),
+                Step::OpenGate(0),
+            ],
+            vec![Step::WaitFull(0), Step::Op(OpSpec::Send(s(0), false)), Step::Op(OpSpec::Send(s(0), false))],
+            vec![Step::WaitFull(0), Step::Yield(20), Step::Op(OpSpec::SendName(0, false))],
+            vec![Step::WaitFull(0), Step::Yield(40), Step::Op(OpSpec::Send(s(1), true))],
+        ])),
+        // a link that reaches the closed set of a terminating process while the OTHER side's mailbox is full: the noproc
+        // notice waits for room (signal_noproc_exit); the same for a late monitor
+        ("full-late-link-and-monitor", Scenario { clients: vec![
+            vec![
+                Step::CloseGate(0),
+                sp(true), sp(true),
+                Step::Fill(0),
+                Step::Op(OpSpec::Send(s(1), true)),
+                Step::WaitPoint(1, 3),
+                Step::Yield(150),
+                // process 1 must still be at its last hook point when the two calls complete (a call is one block of
+                // the history): a short real wait, and many more yields at the point than fit into it
+                Step::Sleep(3),
+                Step::OpenGate(0),
+                Step::WaitEnded(1),
+            ],
+            vec![Step::WaitPoint(1, 3), Step::Op(OpSpec::Link(s(0), s(1)))],
+            vec![Step::WaitPoint(1, 3), Step::Yield(20), Step::Op(OpSpec::Monitor(s(0), s(1)))],
+        ], hook_max: [0, 0, 0], hook_fixed: Some([0, 0, 300_000]), hook_seed: 1, names: 1 }),
     ]
 }
 
@@ -1208,6 +1339,23 @@ pub fn run(ctx: &mut Ctx) {
                     }
                     emit(ctx, &log, name);
                     ctx.count("directed_scenarios");
+                }
+                None => ctx.fail("c18-node-start-failed", name),
+            }
+        }
+
+        // full mailboxes
+        for (name, sc) in full_mailbox() {
+            match run_scenario(&sc).await {
+                Some((log, unknown)) => {
+                    if unknown > 0 {
+                        ctx.fail("c18-hook-from-unknown-task", name);
+                    }
+                    // the scenario did fill a mailbox: more sends than any other scenario makes
+                    let sends = log.iter().filter(|e| matches!(e, Entry::Call { op, res, .. } if op.starts_with("sd.0.") && res == "ok")).count();
+                    ctx.add("full_mailbox_fillers", sends as u64);
+                    emit(ctx, &log, name);
+                    ctx.count("full_mailbox_scenarios");
                 }
                 None => ctx.fail("c18-node-start-failed", name),
             }
